@@ -49,6 +49,16 @@ pub enum Op {
     StreamBegin { id: u32 },
 }
 
+/// A transaction id names an issued transaction only if it is exactly that whole number: ids are
+/// issued as whole numbers, so a fractional, negative, out-of-range or NaN id was never issued.
+pub fn whole_u32(x: f64) -> Option<u32> {
+    if x >= 0.0 && x < 4294967296.0 && x.fract() == 0.0 {
+        Some(x as u32)
+    } else {
+        None
+    }
+}
+
 #[derive(Clone, Debug, PartialEq)]
 pub enum Ev {
     ConnectionAccepted,
@@ -249,7 +259,7 @@ impl Model {
             }
             Op::SendPing => want_tags.push(Tag::PingRequest),
             Op::Result { txid, stream_id, non_number } => {
-                let key = if *txid >= 0.0 && *txid < 4294967296.0 { Some(*txid as u32) } else { None };
+                let key = whole_u32(*txid);
                 match key.and_then(|k| self.outstanding.remove(&k).map(|p| (k, p))) {
                     None => want_events.push(Ev::UnknownTransaction { txid_bits: txid.to_bits() }),
                     Some((k, Purpose::Connect)) => {
@@ -288,7 +298,7 @@ impl Model {
                 }
             }
             Op::Error { txid } => {
-                let key = if *txid >= 0.0 && *txid < 4294967296.0 { Some(*txid as u32) } else { None };
+                let key = whole_u32(*txid);
                 match key.and_then(|k| self.outstanding.remove(&k).map(|p| (k, p))) {
                     None => want_events.push(Ev::UnknownTransaction { txid_bits: txid.to_bits() }),
                     Some((k, Purpose::Connect)) => {
